@@ -869,7 +869,11 @@ def run_bounded(run, tier, seed):
     t1, d1 = _tasks(closed, rs, seed, enabled, True)
     run.bounded_part(PART_EXH, bounds={'scopes': d1, 'families': {f: FAM_DOC[f] for f in sorted(set(d['family'] for d in d1))},
                                        'argument': 'every scope is complete and closed under relabelling, so the adjacent '
-                                                   'transpositions on every member imply the relation for all n! permutations'},
+                                                   'transpositions on every member imply the relation for all n! permutations',
+                                       'parameters': 'community vectors: all label vectors over {1,2,3} for n <= 3 ({1,2} on dwc) and for ub n = 4, over {1,2} '
+                                                     'for the weighted sets at n = 4 and ub n = 5 (closed under renumbering); 6 seeded vectors for db n = 4 and '
+                                                     'ub n = 6 (not exhaustive in ci there); k = 0..n (kcore_bu), 0..2n-1 (kcore_bd); s in {.5,1.5,2.5,3.5,5}; '
+                                                     'gtom nr_steps 0..4; every source node for breadth; klevel None and 2; d = .85 and d = .5 with falff = 1..n'},
                      rule='one case = (input matrix [+ parameters renumbered along], permutation), evaluated for every applicable measure '
                           '(evaluations count measure x case); non-trivial = the renumbering changes the input arrays; distinct by '
                           '(family, n, graph index, permutation[, parameter index])', exhaustive=True)
